@@ -38,8 +38,9 @@ ALLOWED_AXIOMS = {"propext", "Classical.choice", "Quot.sound"}
 # file; the native axioms it introduces are accepted for exactly the two C04 theorems that rest on them.
 BV_MODULE = "NexoVerif.Lemmas.StealBV"
 BV_THEOREMS = {"NexoVerif.Steal.find_bit_returns_the_set_bit_of_the_requested_rank",
-               "NexoVerif.Steal.first_steal_candidate_is_a_candidate"}
-BV_AXIOM = re.compile(r"^NexoVerif\.Steal\.(findBit_spec|popCount_eq|popCount_ne_zero|popCount_le)\._native\.bv_decide\.ax_\d+_\d+$")
+               "NexoVerif.Steal.first_steal_candidate_is_a_candidate",
+               "NexoVerif.Steal.first_candidate_becomes_the_lsb_of_the_rotated_set"}
+BV_AXIOM = re.compile(r"^NexoVerif\.Steal\.(findBit_spec|popCount_eq|popCount_ne_zero|popCount_le|rotate_spec)\._native\.bv_decide\.ax_\d+_\d+$")
 FORBIDDEN = re.compile(r"\b(sorry|admit|native_decide|bv_decide|implemented_by|unsafe)\b|^\s*axiom\s|maxHeartbeats\s+0")
 
 
